@@ -34,6 +34,9 @@ def ready_edge(b, timer_field):
 
 def timer_calls(b, field, method):
     return [bb for (bd, bb, t, m) in method_calls_on_field(b._prog, DF + field + "$", bodies=[b]) if m == method]
+    # an expiry that nobody looks at is no time bound at all (shared with C04-b)
+    from .c04 import timer_polls_observed
+    timer_polls_observed(ck, prog, "C06")
 
 
 def run(ck, prog, tier, load):
